@@ -186,9 +186,16 @@ package rag
 
 // consecutive indices: the chunks produced for one block take indices old..old+n-1 in order, all on the block's page
 //@ spec func consecutiveFrom(cs []*Chunk, start int, page int) bool = forall k int :: {cs[k]} 0 <= k && k < len(cs) ==> cs[k].Metadata.ChunkIndex == start + k
+//@ func (*SizeCalculator) IsAboveMax results (r)
+//@   property C13
+//@   flags pure
+
+// C13: a block goes out unsplit only when the size calculator says it is within the hard maximum (in the unit of the
+// size configuration - not by comparing bytes with some other limit)
 //@ func (*DocumentChunker) textBlockToChunks results (res)
-//@   property C12
+//@   property C12, C13
 //@   flags nosafety, recvreadonly
+//@   callsite createTextChunk#1(b) requires unsplit_only_within_the_hard_maximum: !sizeCalc.IsAboveMax(block.text) && sameseq(b.text, block.text)
 //@   requires valid_size_config: dc.sizeConfig.Max.Value >= 0 && dc.sizeConfig.TokensPerChar > 0.0
 //@   ensures indices: *chunkIndex == old(*chunkIndex) + len(res) && forall k int :: {res[k]} 0 <= k && k < len(res) ==> res[k].Metadata.ChunkIndex == old(*chunkIndex) + k && res[k].Metadata.PageStart == block.pageNum && res[k].Metadata.PageEnd == block.pageNum
 //@   loop 0:
